@@ -2225,6 +2225,9 @@ func decodeGenericInterfaceCounters(data *[]byte) (SFlowGenericInterfaceCounters
 	gic := SFlowGenericInterfaceCounters{}
 	var cdf SFlowCounterDataFormat
 
+	if len(*data) < 96 {
+		return SFlowGenericInterfaceCounters{}, errors.New("generic interface counters too small")
+	}
 	*data, cdf = (*data)[4:], SFlowCounterDataFormat(binary.BigEndian.Uint32((*data)[:4]))
 	gic.EnterpriseID, gic.Format = cdf.decode()
 	*data, gic.FlowDataLength = (*data)[4:], binary.BigEndian.Uint32((*data)[:4])
@@ -2285,6 +2288,9 @@ func decodeEthernetCounters(data *[]byte) (SFlowEthernetCounters, error) {
 	ec := SFlowEthernetCounters{}
 	var cdf SFlowCounterDataFormat
 
+	if len(*data) < 4 {
+		return SFlowEthernetCounters{}, errors.New("ethernet counters too small")
+	}
 	*data, cdf = (*data)[4:], SFlowCounterDataFormat(binary.BigEndian.Uint32((*data)[:4]))
 	ec.EnterpriseID, ec.Format = cdf.decode()
 	if len(*data) < 4 {
@@ -2362,6 +2368,9 @@ func decodeVLANCounters(data *[]byte) (SFlowVLANCounters, error) {
 	vc := SFlowVLANCounters{}
 	var cdf SFlowCounterDataFormat
 
+	if len(*data) < 36 {
+		return SFlowVLANCounters{}, errors.New("vlan counters too small")
+	}
 	*data, cdf = (*data)[4:], SFlowCounterDataFormat(binary.BigEndian.Uint32((*data)[:4]))
 	vc.EnterpriseID, vc.Format = cdf.decode()
 	vc.EnterpriseID, vc.Format = cdf.decode()
@@ -2401,6 +2410,9 @@ func decodeLACPCounters(data *[]byte) (SFlowLACPCounters, error) {
 	la := SFlowLACPCounters{}
 	var cdf SFlowCounterDataFormat
 
+	if len(*data) < 64 {
+		return SFlowLACPCounters{}, errors.New("lacp counters too small")
+	}
 	*data, cdf = (*data)[4:], SFlowCounterDataFormat(binary.BigEndian.Uint32((*data)[:4]))
 	la.EnterpriseID, la.Format = cdf.decode()
 	*data, la.FlowDataLength = (*data)[4:], binary.BigEndian.Uint32((*data)[:4])
@@ -2458,6 +2470,9 @@ func decodeProcessorCounters(data *[]byte) (SFlowProcessorCounters, error) {
 	var cdf SFlowCounterDataFormat
 	var high32, low32 uint32
 
+	if len(*data) < 36 {
+		return SFlowProcessorCounters{}, errors.New("processor counters too small")
+	}
 	*data, cdf = (*data)[4:], SFlowCounterDataFormat(binary.BigEndian.Uint32((*data)[:4]))
 	pc.EnterpriseID, pc.Format = cdf.decode()
 	*data, pc.FlowDataLength = (*data)[4:], binary.BigEndian.Uint32((*data)[:4])
@@ -2527,6 +2542,9 @@ func decodeOpenflowportCounters(data *[]byte) (SFlowOpenflowPortCounters, error)
 	ofp := SFlowOpenflowPortCounters{}
 	var cdf SFlowCounterDataFormat
 
+	if len(*data) < 20 {
+		return SFlowOpenflowPortCounters{}, errors.New("openflow port counters too small")
+	}
 	*data, cdf = (*data)[4:], SFlowCounterDataFormat(binary.BigEndian.Uint32((*data)[:4]))
 	ofp.EnterpriseID, ofp.Format = cdf.decode()
 	*data, ofp.FlowDataLength = (*data)[4:], binary.BigEndian.Uint32((*data)[:4])
@@ -2553,6 +2571,9 @@ func decodeAppresourcesCounters(data *[]byte) (SFlowAppresourcesCounters, error)
 	app := SFlowAppresourcesCounters{}
 	var cdf SFlowCounterDataFormat
 
+	if len(*data) < 48 {
+		return SFlowAppresourcesCounters{}, errors.New("app resources counters too small")
+	}
 	*data, cdf = (*data)[4:], SFlowCounterDataFormat(binary.BigEndian.Uint32((*data)[:4]))
 	app.EnterpriseID, app.Format = cdf.decode()
 	*data, app.FlowDataLength = (*data)[4:], binary.BigEndian.Uint32((*data)[:4])
@@ -2583,6 +2604,9 @@ func decodeOVSDPCounters(data *[]byte) (SFlowOVSDPCounters, error) {
 	dp := SFlowOVSDPCounters{}
 	var cdf SFlowCounterDataFormat
 
+	if len(*data) < 32 {
+		return SFlowOVSDPCounters{}, errors.New("ovs datapath counters too small")
+	}
 	*data, cdf = (*data)[4:], SFlowCounterDataFormat(binary.BigEndian.Uint32((*data)[:4]))
 	dp.EnterpriseID, dp.Format = cdf.decode()
 	*data, dp.FlowDataLength = (*data)[4:], binary.BigEndian.Uint32((*data)[:4])
@@ -2603,13 +2627,24 @@ type SFlowPORTNAME struct {
 	Str string
 }
 
-func decodeString(data *[]byte) (len uint32, str string) {
-	*data, len = (*data)[4:], binary.BigEndian.Uint32((*data)[:4])
-	str = string((*data)[:len])
-	if (len % 4) != 0 {
-		len += 4 - len%4
+func decodeString(data *[]byte) (length uint32, str string, err error) {
+	if len(*data) < 4 {
+		return 0, "", errors.New("sflow string too small")
 	}
-	*data = (*data)[len:]
+	*data, length = (*data)[4:], binary.BigEndian.Uint32((*data)[:4])
+	// length is read from the packet: the string and its padding to a
+	// multiple of 4 bytes must both fit into the remaining bytes.
+	if length > uint32(len(*data)) {
+		return 0, "", fmt.Errorf("sflow string length %d exceeds remaining buffer", length)
+	}
+	str = string((*data)[:length])
+	if (length % 4) != 0 {
+		length += 4 - length%4
+	}
+	if length > uint32(len(*data)) {
+		return 0, "", fmt.Errorf("sflow padded string length %d exceeds remaining buffer", length)
+	}
+	*data = (*data)[length:]
 	return
 }
 
@@ -2617,10 +2652,16 @@ func decodePortnameCounters(data *[]byte) (SFlowPORTNAME, error) {
 	pn := SFlowPORTNAME{}
 	var cdf SFlowCounterDataFormat
 
+	if len(*data) < 8 {
+		return SFlowPORTNAME{}, errors.New("port name counters too small")
+	}
 	*data, cdf = (*data)[4:], SFlowCounterDataFormat(binary.BigEndian.Uint32((*data)[:4]))
 	pn.EnterpriseID, pn.Format = cdf.decode()
 	*data, pn.FlowDataLength = (*data)[4:], binary.BigEndian.Uint32((*data)[:4])
-	pn.Len, pn.Str = decodeString(data)
+	var err error
+	if pn.Len, pn.Str, err = decodeString(data); err != nil {
+		return SFlowPORTNAME{}, err
+	}
 
 	return pn, nil
 }
